@@ -513,6 +513,52 @@ def width_twins(ctx, rng, n):
                     ctx.event("width_twins_checked")
 
 
+def explicit_offset_units(ctx):
+    """Bit-field members placed through the API (`add_field(..., bits=, offset=)`).  A member at an explicit offset
+    beyond the current unit opens a new unit there -- that is what the layout computes (`len`, member offsets).  With a
+    non-bit member in between, readers and writer agree with it.  Directly after a partly used unit of the same type
+    they do not (open finding K16): both readers keep slicing the previous unit and the writer merges both members
+    into one unit at the new offset."""
+    from dissect.cstruct import Field, compiler
+
+    for endian in "<>":
+        for compiled in (True, False):
+            for st, size in (("uint8", 1), ("uint16", 2)):
+                for between in (True, False):
+                    off = 5
+                    ctx.evaluation(("explicit-offset-units", endian, compiled, st, between))
+                    ctx.cell("bit-field-at-an-explicit-offset")
+                    det = {"endian": endian, "compiled": compiled, "storage": st, "member_between": between, "workload": "explicit-offset-units"}
+                    try:
+                        cs = lib.cstruct(endian=endian)
+                        T_ = getattr(cs, st)
+                        fields = [Field("a", T_, bits=4)] + ([Field("x", cs.uint8)] if between else []) + [Field("b", T_, bits=4, offset=off)]
+                        T = cs._make_struct("T", fields)
+                        if compiled:
+                            T = compiler.compile(T)
+                        data = bytes([0x21, 0x43, 0x65, 0x87, 0xA9, 0xCB, 0xED, 0x0F][:off + size])
+                        bo = "little" if endian == "<" else "big"
+                        u0, u1 = int.from_bytes(data[:size], bo), int.from_bytes(data[off:off + size], bo)
+                        first = (lambda u: u & 0xF) if endian == "<" else (lambda u: (u >> (size * 8 - 4)) & 0xF)
+                        second = (lambda u: (u >> 4) & 0xF) if endian == "<" else (lambda u: (u >> (size * 8 - 8)) & 0xF)
+                        o = T(data)
+                        got = (len(T), int(o.a), int(o.b))
+                        want = (off + size, first(u0), first(u1))
+                        d = T(a=1, b=2).dumps()
+                        back = T(d) if len(d) == len(T) else None
+                        inverse = back is not None and (int(back.a), int(back.b)) == (1, 2)
+                    except Exception as e:  # noqa: BLE001
+                        ctx.violation("explicit-offset", f"explicit-offset-bit-field-raises:{type(e).__name__}", dict(det, error=lib.exc_sig(e)))
+                        continue
+                    if got == want and inverse:
+                        ctx.event("explicit_offset_units_checked")
+                        continue
+                    continued = (not between) and got == (off + size, first(u0), second(u0))
+                    sig = "K16:bit-field-at-an-explicit-offset-continues-the-previous-unit" if continued else \
+                        "bit-field-at-an-explicit-offset:readers-or-writer-disagree-with-the-layout"
+                    ctx.violation("explicit-offset", sig, dict(det, got=got, want=want, dump=d.hex(), inverse=inverse))
+
+
 def single_and_enum_forms(ctx, rng, n):
     """(a) A structure whose only member is a bit-field, for every storage type: every input kind gives the same,
     in-range value, the default-constructed structure equals the parse of zero bytes and dumps as zeros.
@@ -699,6 +745,7 @@ def run(ctx):
         char_units(ctx, ctx.rng("char-units"), 10 if not ctx.thorough else 200)
         if ctx.shard == 0:
             union_bits(ctx, ctx.rng("union-bits"))
+            explicit_offset_units(ctx)
         if ctx.shard % 4 == 1:
             width_twins(ctx, ctx.rng("width-twins"), 10 if not ctx.thorough else 150)
         if ctx.shard % 4 == 2:
@@ -730,6 +777,10 @@ def replay(ctx, detail):
     if detail.get("workload") == "union-bits":
         import random
         union_bits(ctx, random.Random(0))
+        return
+    if detail.get("workload") == "explicit-offset-units":
+        print(detail)
+        explicit_offset_units(ctx)
         return
     if detail.get("workload") == "width-twins":
         print(detail)
